@@ -20,12 +20,27 @@ open AbtemVerif.Polar AbtemVerif.Py AbtemVerif.Gen.PolarIntegrate
 lemma pyInt_intCast (i : Int) : pyInt (i : Rat) = i := by
   unfold pyInt; split <;> simp [Rat.floor_intCast, Rat.ceil_intCast]
 
-/-- simp-normal form of `int((off + i·S − off)/S)` -/
-lemma aligned_index (S : Rat) (hS : S ≠ 0) (i : Nat) :
-    pyInt ((i : Rat) * S / S) = (i : Int) := by
-  have : (i : Rat) * S / S = ((i : Int) : Rat) := by
+lemma pyFloor_int_add_half (i : Int) : pyFloor ((i : Rat) + 1 / 2) = i := by
+  unfold pyFloor
+  show ⌊(i : ℚ) + 1 / 2⌋ = i
+  rw [Int.floor_eq_iff]
+  constructor <;> norm_num
+
+/-- `_limit_to_bin_index` maps a limit lying exactly on bin edge `i` to `i` (simp-normal form of the argument). -/
+lemma aligned_index (S : Rat) (hS : S ≠ 0) (i : Nat) (off : Rat) :
+    limitToBinIndex (off + (i : Rat) * S) off S = (i : Int) := by
+  have hq : (off + (i : Rat) * S - off) / S = ((i : Int) : Rat) := by
     field_simp; push_cast; ring
-  rw [this, pyInt_intCast]
+  unfold limitToBinIndex
+  simp only [hq]
+  have hfl : pyFloor (((i : Int) : Rat) + (1 : Rat) / 2) = (i : Int) := pyFloor_int_add_half i
+  simp only [hfl]
+  have habs : pyAbs (((i : Int) : Rat) - (((i : Int) : Int) : Rat)) = 0 := by simp [pyAbs]
+  have hnn : (0 : Rat) ≤ (1 : Rat) / 1000000000 * max (1 : Rat) (pyAbs ((i : Int) : Rat)) := by
+    apply mul_nonneg (by norm_num)
+    exact le_trans (by norm_num) (le_max_left _ _)
+  simp only [habs, hnn, decide_true, if_true]
+  exact pyInt_intCast _
 
 lemma pySlice_nat (i j n : Nat) (hi : i ≤ n) (hj : j ≤ n) :
     pySlice (i : Int) (j : Int) n = (i, j) := by
@@ -71,14 +86,14 @@ theorem radial_aligned (p : Params) (nr na i₀ i₁ : Nat) (hS : p.radial_sampl
     select p nr na (some (p.radial_offset + i₀ * p.radial_sampling, p.radial_offset + i₁ * p.radial_sampling)) none
       = .ok (i₀, i₁, 0, na) := by
   have hgt : ¬ ((i₁ : Int) > (nr : Int)) := by omega
-  simp [select, innerIndex, outerIndex, aligned_index _ hS, pySlice_nat i₀ i₁ nr (le_trans h01 h1) h1, hgt]
+  simp [select, innerIndex, outerIndex, aligned_index _ hS _ _, pySlice_nat i₀ i₁ nr (le_trans h01 h1) h1, hgt]
 
 /-- Azimuthal limits on bin edges `aoff + j₀·A`, `aoff + j₁·A` select exactly the bins `j₀ ≤ j < j₁`
 (and all radial bins). -/
 theorem azimuthal_aligned (p : Params) (nr na j₀ j₁ : Nat) (hA : p.azimuthal_sampling ≠ 0) (h01 : j₀ ≤ j₁) (h1 : j₁ ≤ na) :
     select p nr na none (some (p.azimuthal_offset + j₀ * p.azimuthal_sampling, p.azimuthal_offset + j₁ * p.azimuthal_sampling))
       = .ok (0, nr, j₀, j₁) := by
-  simp [select, leftIndex, rightIndex, aligned_index _ hA, pySlice_nat j₀ j₁ na (le_trans h01 h1) h1]
+  simp [select, leftIndex, rightIndex, aligned_index _ hA _ _, pySlice_nat j₀ j₁ na (le_trans h01 h1) h1]
 
 /-- Both limits at once: exactly the bins in the product of the two index ranges. -/
 theorem both_aligned (p : Params) (nr na i₀ i₁ j₀ j₁ : Nat) (hS : p.radial_sampling ≠ 0) (hA : p.azimuthal_sampling ≠ 0)
@@ -87,7 +102,7 @@ theorem both_aligned (p : Params) (nr na i₀ i₁ j₀ j₁ : Nat) (hS : p.radi
         (some (p.azimuthal_offset + j₀ * p.azimuthal_sampling, p.azimuthal_offset + j₁ * p.azimuthal_sampling))
       = .ok (i₀, i₁, j₀, j₁) := by
   have hgt : ¬ ((i₁ : Int) > (nr : Int)) := by omega
-  simp [select, innerIndex, outerIndex, leftIndex, rightIndex, aligned_index _ hS, aligned_index _ hA,
+  simp [select, innerIndex, outerIndex, leftIndex, rightIndex, aligned_index _ hS _ _, aligned_index _ hA _ _,
     pySlice_nat i₀ i₁ nr (le_trans hi hi1) hi1, pySlice_nat j₀ j₁ na (le_trans hj hj1) hj1, hgt]
 
 /-- An outer radial limit beyond the last bin edge is rejected (the code raises RuntimeError). -/
@@ -96,7 +111,7 @@ theorem radial_exceeded_rejected (p : Params) (nr na i₀ i₁ : Nat) (hS : p.ra
     select p nr na (some (p.radial_offset + i₀ * p.radial_sampling, p.radial_offset + i₁ * p.radial_sampling)) al
       = .error "runtime_error" := by
   have hgt : ((i₁ : Int) > (nr : Int)) := by omega
-  simp [select, outerIndex, aligned_index _ hS, hgt]
+  simp [select, outerIndex, aligned_index _ hS _ _, hgt]
 
 /-- The value returned for aligned limits is the sum of exactly the selected bins. -/
 theorem integrate_aligned_value (p : Params) (nr na i₀ i₁ j₀ j₁ : Nat) (bins : Nat → Nat → Int)
